@@ -374,6 +374,22 @@ def _close(a, b):
 
 
 # --------------------------------------------------------------------------- judging one case
+def judge_read(case, ri, den_in):
+    """the READ half of the property: what the API reports right after reading = what the input file denotes (by the
+    Spec reader), whichever block gives it. Only for inputs the Spec finds well-formed. -> None | (signature, what)"""
+    if ri.get("read") != "ok" or den_in is None or "state0" not in ri:
+        return None
+    ok, _ = spec.well_formed(den_in)
+    if not ok:
+        return None
+    v = ci.judge_write(ri["state0"], case["text"], den_in, None, check_block=False)
+    if v is None:
+        return None
+    cls, datum, detail = v
+    sig = {"mechanism": "cell-data", "class": "read-" + cls, "datum": datum, "flags": None, "history": "read"}
+    return sig, f"after reading: {cls} {datum}: {detail}"
+
+
 def judge_case(case, ri, dens):
     """first violation of the property in the case. dens: list of denotations, one per write that produced text.
     -> None | (step index, signature, what)"""
@@ -530,11 +546,19 @@ def run(chk):
         c.pop("_", None)
     impl = pmap(ci.run_impl, [{k: v for k, v in c.items() if k != "src"} for c in cases], chunksize=16)
     dens = denote_writes(impl)
+    # the READ half: the Spec's reading of every distinct generated / hand-made input
+    in_den = {}
+    for lim in (80, 128):
+        texts = sorted({c["text"] for c in cases if c.get("limit", 128) == lim and c.get("src", "").split(":")[0] in ("small", "generated", "history", "corpus")})
+        for t, d in zip(texts, spec.denote_many(texts, lim) if texts else []):
+            in_den[(lim, t)] = d
+    read_judged = set()
     built = [build_model_case(c, r) for c, r in zip(cases, impl)]
     idx = [i for i, b in enumerate(built) if b is not None]
     model_out = drv.batch([built[i][0] for i in idx]) if drv.ok else None
     model = {i: model_out[k] for k, i in enumerate(idx)} if model_out is not None else {}
 
+    seen_sig = {}
     for i, (case, ri) in enumerate(zip(cases, impl)):
         src = case.get("src", "?").split(":")[0]
         pure = {k: v for k, v in case.items() if k != "src"}
@@ -555,8 +579,41 @@ def run(chk):
             elif st["out"] != "ok":
                 chk.count("refused:" + op[0] + ":" + st["out"].split(":")[-1])
         chk.note_case(pure, nontrivial, sample_every=4000)
+        rkey = (pure.get("limit", 128), pure["text"])
+        if rkey in in_den and rkey not in read_judged:
+            read_judged.add(rkey)
+            chk.count("read-judged")
+            rv = judge_read(pure, ri, in_den[rkey])
+            if rv is not None:
+                ri2 = ci.run_impl(dict(pure, ops=[]))  # confirm in this process
+                rv = judge_read(pure, ri2, in_den[rkey])
+                if rv is None:
+                    chk.count("flaky:violation-not-reproduced")
+                else:
+                    small = dict(pure, ops=[])
+
+                    def fails_text(t, sig=rv[0], lim=rkey[0]):
+                        c2 = dict(small, text=t)
+                        r = judge_read(c2, ci.run_impl(c2), spec.denote(t, lim))
+                        return r is not None and r[0] == sig
+
+                    try:
+                        t = shrink_text(small["text"], fails_text)
+                        if fails_text(t):
+                            small = dict(small, text=t)
+                    except Exception:  # noqa: BLE001
+                        pass
+                    chk.violation(rv[0], rv[1], {"case": small, "api_after_read": ri2.get("state0")})
         verdict = judge_case(pure, ri, dens[i])
         upto = len(ri["steps"])
+        if verdict is not None:
+            upto = verdict[0]
+            key = canon(verdict[1])
+            seen_sig[key] = seen_sig.get(key, 0) + 1
+            if seen_sig[key] > 2:
+                # the same signature was confirmed (re-run in this process) and reported already: count only
+                chk.count("violation-occurrences-not-rerun")
+                verdict = None
         if verdict is not None:
             ri2, dens2 = run_one(pure)  # confirm in this process before reporting
             v2 = judge_case(pure, ri2, dens2)
@@ -577,6 +634,9 @@ def run(chk):
             chk.traces_validated += 1
             nsteps = min(built[i][1], upto)
             diff = compare_case(pure, ri, dens[i], model[i], nsteps)
+            if diff is not None and chk.dist.get("disagreement-confirmed", 0) >= 4:
+                chk.count("disagreement-occurrences-not-rerun")
+                diff = None
             if diff is not None:
                 chk.disagreements_checked += 1
                 chk.count("disagreement:" + diff[1][:60])
@@ -587,8 +647,9 @@ def run(chk):
                 if diff2 is None:
                     chk.count("flaky:disagreement-not-reproduced")
                     continue
+                chk.count("disagreement-confirmed")
                 small = pure
-                if len(chk.broken) < 2:
+                if chk.dist.get("disagreement-confirmed", 0) <= 2:
                     def differs(ops, pure=pure, last=pure["ops"][diff2[0]:diff2[0] + 1]):
                         c = dict(pure, ops=ops + last)
                         r, d = run_one(c)
@@ -617,8 +678,11 @@ def replay(chk, payload):
     drv = leanio.Driver(chk, "drv_c09")
     ri, dens = run_one(case)
     chk.note_case(case)
+    rv = judge_read(case, ri, spec.denote(case["text"], case.get("limit", 128)))
     v = judge_case(case, ri, dens)
-    if v is not None:
+    if rv is not None:
+        chk.violation(rv[0], rv[1], {"case": case, "api_after_read": ri.get("state0")})
+    elif v is not None:
         st = ri["steps"][v[0]]
         chk.violation(v[1], v[2], {"case": case, "written": st.get("text"), "api": st.get("api"), "raised": st["out"]})
     elif drv.ok:
